@@ -343,3 +343,70 @@ def conv_ok(ci, b, a):
     if is_alt(b, 'none'):
         return is_alt(a, 'none')
     return is_alt(b, 'vi') and is_alt(a, 'pv') and alt(a, 'pv') == dt_val(val(ci.datatype), alt(b, 'vi').value)
+
+
+# ---- wildcard-key defaults re-normalised under a key type (C10, C11) -------------------------------------------------
+@recursive(['Map[str, MItem]', 'Fun[kt]', 'int', 'Map[str, MItem]'], 'Tuple[int, Map[str, MItem]]')
+def renorm_defaults(raw, kt, i, acc):
+    """The defaults of a wildcard KEY as written (raw: key text -> default) filed under the keys
+    normalised by key type kt, reading the entries from index i on with acc built so far:
+    (0, map); (1, _) when two keys collide after normalisation; (2, _) when the key type refuses
+    a key."""
+    if i >= len(keys(raw)):
+        return (0, acc)
+    k = keys(raw)[i]
+    if kt_raises(kt, k):
+        return (2, acc)
+    n = kt_val(kt, k)
+    if n in acc:
+        return (1, acc)
+    return renorm_defaults(raw, kt, i + 1, updated(acc, n, raw[k]))
+
+
+@recursive(['Map[str, MItem]', 'Fun[kt]', 'int', 'Map[str, MItem]'], 'Tuple[int, Map[str, MItem]]')
+def renorm_multi_defaults(raw, kt, i, acc):
+    """The defaults of a wildcard MULTIKEY (raw: key text -> list of defaults) filed under the
+    normalised keys; lists of keys that normalise to the same key are concatenated in document
+    order.  (2, _) when the key type refuses a key."""
+    if i >= len(keys(raw)):
+        return (0, acc)
+    k = keys(raw)[i]
+    if kt_raises(kt, k):
+        return (2, acc)
+    n = kt_val(kt, k)
+    if n in acc:
+        return renorm_multi_defaults(raw, kt, i + 1, updated(acc, n, lst_item(alt(acc[n], 'lst') + alt(raw[k], 'lst'))))
+    return renorm_multi_defaults(raw, kt, i + 1, updated(acc, n, lst_item(alt(raw[k], 'lst'))))
+
+
+def same_declaration(a, b):
+    """Two info objects declare the same child: same kind (class), name, datatype, occurrence
+    bounds, handler, attribute - and, for section slots, the same section type."""
+    return (same_class(a, b) and a.name == b.name and a.datatype == b.datatype and a.minOccurs == b.minOccurs
+            and a.maxOccurs == b.maxOccurs and a.handler == b.handler and a.attribute == b.attribute
+            and (not isa(a, 'info.SectionInfo') or
+                 cast(a, 'info.SectionInfo').sectiontype == cast(b, 'info.SectionInfo').sectiontype))
+
+
+def raw_defaults_of(ci):
+    """The defaults of a wildcard key AS WRITTEN in the schema (before key-type normalisation)."""
+    k = cast(ci, 'info.BaseKeyInfo')
+    if is_alt(k._rawdefaults, 'none'):
+        return alt(k._default, 'kmap')
+    return alt(k._rawdefaults, 'kmap')
+
+
+def derived_child(t_key, t_info, b_key, b_info, kt):
+    """C11 (extends): what the derived type holds for a child (b_key, b_info) of its base: the
+    very same info object - except for a wildcard key, which is a NEW object declaring the same
+    key whose defaults are the defaults as written, re-normalised under the derived key type kt."""
+    if t_key != b_key:
+        return False
+    if not (isa(b_info, 'info.BaseKeyInfo') and b_info.name == '+'):
+        return t_info == b_info
+    if not same_declaration(t_info, b_info) or t_info == b_info:
+        return False
+    d = cast(t_info, 'info.BaseKeyInfo')._default
+    if isa(b_info, 'info.KeyInfo'):
+        return is_alt(d, 'kmap') and renorm_defaults(raw_defaults_of(b_info), kt, 0, {}) == (0, alt(d, 'kmap'))
+    return is_alt(d, 'kmap') and renorm_multi_defaults(raw_defaults_of(b_info), kt, 0, {}) == (0, alt(d, 'kmap'))
